@@ -500,11 +500,11 @@ static Case gen_case_inner(const std::string &profile, uint64_t seed, const GenO
             std::vector<int> rows = rand_perm(rc, n); rows.resize(k); std::sort(rows.begin(), rows.end());
             std::vector<int> cs = rand_perm(rc, n); cs.resize(k + 1);
             for (int cc : cs) { cols[cc].clear(); for (int r : rows) if (rc.chance(0.8) || cols[cc].empty()) cols[cc].push_back({r, round_prec(cld((ld)(0.1 + rc.unit()), 0), c.prec)}); }
-        } else if (mode < 80) {
+        } else if (mode < 76) {
             kind = "duplicate_column";
             int a = pick_col(), b = pick_col(); if (a == b) b = (a + 1) % n;
             cols[b] = cols[a]; for (auto &e : cols[b]) e.second = e.second * cld(2, 0);
-        } else if (mode < 90) {
+        } else if (mode < 94) {
             kind = "two_zero_columns";
             int a = pick_col(), b = pick_col();
             for (auto &e : cols[a]) e.second = 0;
